@@ -363,14 +363,27 @@ var revSpecs = []revSpec{
 // moderate makes the helper change the actor's permissions and waits until the actor has
 // been notified.
 func (w *world) moderate(a *actor, kind, perm string, wantHeld bool) bool {
+	// flush first: afterwards the next 'joined change' the actor receives is the
+	// notification of this very action, not that of an earlier lock or moderation
+	if !w.quiesce() {
+		return false
+	}
 	from := a.c.EventCount()
 	w.logf("helper %s %s", kind, a.c.ID)
 	w.hlp.Send(vclient.Msg{"type": "useraction", "kind": kind, "source": w.hlp.ID, "dest": a.c.ID})
 	m, ok := a.c.WaitForFrom(from, func(m vclient.Msg) bool {
-		return m.Str("type") == "joined" && m.Str("kind") == "change" && has(m.StrList("permissions"), perm) == wantHeld
+		return m.Str("type") == "joined" && m.Str("kind") == "change"
 	}, wd)
 	if !ok {
 		w.inconclusive(fmt.Sprintf("the actor was never notified of %s", kind))
+		return false
+	}
+	if has(m.StrList("permissions"), perm) != wantHeld {
+		w.bad = true
+		w.mu.Lock()
+		l := append([]string(nil), w.log...)
+		w.mu.Unlock()
+		w.e.run.Violation("partial-effect:"+kind, fmt.Sprintf("an operator sent %q for a member; the member was notified, but of permissions %v", kind, m.StrList("permissions")), map[string]any{"batch": w.e.batch, "scenario": w.desc, "log": l})
 		return false
 	}
 	w.logf("actor notified: permissions now %v", m.StrList("permissions"))
